@@ -838,18 +838,18 @@ def run(ctx):
             exprs.append(("STYLED", L, rng.choice(STYLES)))
             exprs.append(("VC", rng.choice([None] + STYLES), L))
             exprs.append(("PANEL", {"style": "on red", "border_style": "bold", "padding": 0}, L))
-            for _ in range(9 if quick else 60):
+            for _ in range(9 if quick else 36):
                 exprs.append(("PANEL", rand_panel_opts(rng, names), L))
             exprs.append(("PANEL", {"expand": False, "padding": 0}, L))
             exprs.append(("PANEL", {"expand": False, "title": "ab"}, L))
             exprs.append(("PANEL", {}, ("PAD", 1, False, L)))
             exprs.append(("ALIGN", {"align": "center"}, ("PANEL", {"expand": False, "title": "ab"}, L)))
-        for _ in range(40 if quick else 500):
+        for _ in range(40 if quick else 300):
             exprs.append(rand_expr(rng, nl, 3, names))
-        for _ in range(25 if quick else 300):
+        for _ in range(25 if quick else 200):
             exprs.append(("TREE", rand_tree(rng, 0, nl, [rng.randint(0, 9)])))
         # Columns rendered to the characters (the inner Table.grid is C07's model, the glue C01's): items are leaves / small frames
-        for _ in range(25 if quick else 300):
+        for _ in range(25 if quick else 200):
             items = [("L", rng.randrange(nl)) if rng.random() < 0.85 else ("PAD", 1, False, ("L", rng.randrange(nl)), "none") for _ in range(rng.choice([0, 1, 2, 3, 4, 5, 7]))]
             exprs.append(("COLS", dict(padding=rng.choice([(0, 1), 0, 1, (0, 2), (1, 0, 0, 3)]), width=rng.choice([None, None, None, 0, 3, 6, 30]),
                                        equal=rng.random() < 0.3, column_first=rng.random() < 0.5, right_to_left=rng.random() < 0.4,
@@ -910,7 +910,7 @@ def run(ctx):
         ctx.check(cell_len(first) <= 9, "RenderGroup(ProgressBar, Text)", (repr(env), "RenderGroup(ProgressBar(width=5, completed=50), Text('ccc dd'))", 9),
                   f"the line holding the bar is {cell_len(first)} cells wide in a width of 9: {first!r}",
                   finding="progressbar-no-newline" if narrow else None)
-        run_columns(ctx, env, rng, 45 if quick else 700)
+        run_columns(ctx, env, rng, 45 if quick else 450)
     ctx.rule = (
         "per console environment (%d of them: widths %s, ascii_only / legacy_windows / no_color / colour systems / safe_box): every one of %d leaf children "
         "(empty, one word, wrapping, multi-line, wide, zero-width, centred, right, no_wrap+ellipsis, blank lines, Panel, str, Table, tab) under every option class "
